@@ -333,7 +333,7 @@ static void check_c16(const Spec& sp, const std::vector<Tok>& toks, int maxlen, 
             ref::Err ce = ref::Err::OK; while (!R.at_end()) { ce = R.step(); if (ce != ref::Err::OK) break; } if (ce == ref::Err::OK) ce = R.finish();
             std::string ie; int guard = 0; while (!S.s.inst.at_end() && guard++ < 6000) { ie = S.s.step(); if (ie != "") break; }
             bool same = (ce == ref::Err::OK) ? (ie == "" && S.s.stack() == R.stack) : (ie == ref::err_name(ce) || (ce == ref::Err::SCHNORR_SIG && ie != ""));
-            if (!same) rep(std::string("exec-continuation:") + pk, std::string("continuing after exec: ref ") + ref::err_name(ce) + " impl " + (ie == "" ? "OK" : ie));
+            if (!same) rep(std::string("exec-continuation:sv=") + impl::sv_name(sp.sv) + ";last=" + texts.back() + ";ref=" + ref::err_name(ce) + ";impl=" + (ie == "" ? "OK" : ie), std::string("continuing after exec: ref ") + ref::err_name(ce) + " impl " + (ie == "" ? "OK" : ie));
         }
     }
 }
